@@ -7,7 +7,7 @@ from tableschema import Field
 
 PROP = 'C03'
 PROPS_V = 'Props/C03.v'
-COQ_IMPORTS = ['Base.Str', 'Base.Value', 'IO.Csv', 'IO.EJson', 'IO.JsonText']
+COQ_IMPORTS = ['IO.RowCells', 'Base.Str', 'Base.Value', 'IO.Csv', 'IO.EJson', 'IO.JsonText']
 RULE = ('cases = tables over string/integer/number/boolean/date/time/datetime/year/array/object fields (nulls, negatives, '
         'high-precision decimals, quotes, delimiters, newlines, non-BMP unicode; temporal values at second precision; no '
         'bare CR) x csv/json x dump_to_path/dump_to_zip x add_filehash_to_path x temporal_format_property x 1-3 resources x '
@@ -113,6 +113,12 @@ def gen_cases(rng, tier):
         for z, env in ((True, False), (False, False), (False, True)):
             cases.append({'kind': 'roundtrip', 'pkg': [{'name': 'res0', 'fields': [['alpha', 'string'], ['beta', 'string']], 'rows': rows_enc(pad_rows)}],
                           'format': fmt, 'zip': z, 'hashpath': False, 'tfp': False, 'tfp_fields': [], 'fprops': [], 'mutate_after': False, 'via_env': env})
+    # (string-valued rows: the model lays them out under the header itself, see coq_term)
+    for ko in ('rotate', 'reverse'):
+        rows_ = [{'alpha': 'p', 'beta': 'x,y', 'gamma': 'u'}, {'alpha': 'q', 'beta': None, 'gamma': 'v "w"'}, {'alpha': '', 'beta': 'z', 'gamma': 'line\nbreak'}]
+        cases.append({'kind': 'roundtrip', 'pkg': [{'name': 'res0', 'fields': [['alpha', 'string'], ['beta', 'string'], ['gamma', 'string']], 'rows': rows_enc(rows_)}],
+                      'format': 'csv', 'zip': False, 'hashpath': False, 'tfp': False, 'tfp_fields': [], 'fprops': [], 'mutate_after': False,
+                      'via_env': False, 'keyorder': ko})
     for fmt in ('csv', 'json'):
         for ko in ('rotate', 'reverse'):
             for z in (False, True):
@@ -465,6 +471,16 @@ def coq_term(case, out):
         if text is None:
             return None
         recs = list(csv.reader(io.StringIO(text, newline='')))
+        src = [r for r in case['pkg'] if r['name'] == d['name']]
+        if case.get('keyorder') and not case.get('mv') and src and all(t == 'string' for _, t in src[0]['fields']) and not case.get('fprops'):
+            # rows that reached the dumper with their keys re-ordered: the model lays each row out under the header by name
+            rows_in = rows_dec(src[0]['rows'])
+            if case['keyorder'] == 'rotate':
+                rows_in = [dict(list(r.items())[1:] + list(r.items())[:1]) if len(r) > 1 else r for r in rows_in]
+            else:
+                rows_in = [dict(reversed(list(r.items()))) for r in rows_in]
+            terms.append('list_eqb (list_eqb str_eqb) (csv_records %s %s) %s' % (
+                cstrs([n for n, _ in src[0]['fields']]), crows(rows_in), clist([cstrs(r) for r in recs])))
         # the writer model reproduces the file from the cell texts, and the reader model returns them
         terms.append('(str_eqb (write_csv %s) %s && match read_csv %s with Ok r => list_eqb (list_eqb str_eqb) r %s | Err _ => false end)' % (
             clist([cstrs(r) for r in recs]), cstr(text), cstr(text), clist([cstrs(r) for r in recs])))
